@@ -68,8 +68,8 @@ D1 = ["rowslice_a", "rowslice_b", "rowrev", "rowstep2", "rowlist", "mask", "cols
       "addone", "concat", "concat1", "sort", "cumsum", "diff", "where", "ellipsis"]
 PROBES_Q = ["read", "rowint", "elem", "rowslice", "colslice", "colrev", "ufunc", "rowsum", "set_row", "set_col"]
 # every other public operation, applied to the plainest lazy selections (is a pending view materialised before its geometry is used?)
-PROBES_API = ["colint", "rowcolint", "maskidx", "colvals", "colsum", "colcounts", "padded", "padded_left", "unique", "cumsum", "concat", "where", "rslice", "any", "max", "nonzero", "iter", "tolist", "shape", "fcol", "ellipsis", "emptytuple", "nonzero_m", "rowlist"]
-API_STEPS = ["rowslice_a", "rowrev", "rowlist", "mask", "colslice_a", "colrev", "colstep2"]
+PROBES_API = ["colint", "rowcolint", "maskidx", "colvals", "colsum", "colcounts", "padded", "padded_left", "unique", "cumsum", "concat", "where", "rslice", "any", "max", "nonzero", "iter", "tolist", "shape", "fcol", "ellipsis", "emptytuple", "nonzero_m", "rowlist", "size_rowsum", "size_colsum", "size_cumsum", "repr_rowsum"]
+API_STEPS = ["rowslice_a", "rowrev", "rowstep2", "rowlist", "mask", "colslice_a", "colrev", "colstep2"]
 VIEW_STEPS = ["rowslice_a", "rowrev", "rowstep2", "rowlist", "mask", "colslice_a", "colslice_b", "colrev", "colstep2", "colstepm2"]
 
 
